@@ -185,3 +185,23 @@ Proof.
     split; [exact E|split; [exact S|]]. destruct (conv_exact_lemma I24 x E S) as [_ W].
     rewrite V, W. reflexivity.
 Qed.
+
+(** * the statements of Props.v *)
+Lemma fl_conv_exact_wav_lemma : forall b x, fsample_ok b x ->
+  is_finite (fl_conv b x) = true /\ B2R (fl_conv b x) = fl_value b x /\
+  let (f, x') := wav_twin b x in
+  exact_fmt f /\ sample_ok f x' /\ B2R (fl_conv b x) = B2R (conv f x').
+Proof.
+  intros b x H. destruct (fl_conv_exact_lemma b x H) as [F V].
+  split; [exact F|split; [exact V|exact (fl_conv_wav_lemma b x H)]].
+Qed.
+
+Lemma fl_conv_order_lemma : forall b x y, fsample_ok b x -> fsample_ok b y ->
+  (le32 (Z32 (-1)) (fl_conv b x) = true /\ lt32 (fl_conv b x) (Z32 1) = true) /\
+  ((x < y)%Z -> lt32 (fl_conv b x) (fl_conv b y) = true) /\
+  (fl_conv b x = fl_conv b y -> x = y).
+Proof.
+  intros b x y Hx Hy. split; [now apply fl_conv_in_unit_lemma|]. split.
+  - now apply fl_conv_monotone_lemma.
+  - now apply fl_conv_injective_lemma.
+Qed.
